@@ -211,6 +211,23 @@ def run(ctx):
                         "issues this request after the leave",
                         facts=sorted(t for t, pol in facts[n.id] if "_stopping" in t))
 
+    # the join routine is entered from timers that can outlive stop() (a retriable failure of the exchange in flight arms
+    # the rejoin timer while stop() is waiting for the leave reply): nothing - the coordinator lookup included - is
+    # requested unless `_stopping` was tested on the way in, in the routine itself or at its only call site
+    LOOKUPS = S | {"get_coordinator_broker"}
+    first_req = [n for n in cf.nodes if any(call_name(x) in LOOKUPS for x in n.calls()) and n.id in cf.reach(
+        [cf.entry.id], avoid=[m.id for m in cf.nodes if m is not n and any(call_name(x) in LOOKUPS for x in m.calls())])]
+    f0 = ctx.facts(jas)
+    cjo = ctx.cfg(jouter)
+    fjo = ctx.facts(jouter)
+    callsites = [n for n in cjo.nodes if any(prog.resolve_call(jouter, x) is jas for x in n.calls())]
+    entry_guard = bool(callsites) and all(("self._stopping", False) in fjo[n.id] for n in callsites)
+    for n in first_req:
+        r.check(entry_guard or ("self._stopping", False) in f0[n.id], "%s#entry-request(%s)" % (jas.qname, n.text(40)),
+                "the first request of the join routine is issued without `_stopping` having been tested (neither in the routine nor where it is started)",
+                where(jas, n.stmt), "an exchange in flight fails retriably while stop() waits for the LeaveGroup reply: the rejoin timer "
+                "it arms outlives stop() and sends a coordinator lookup / metadata request after the member has left")
+
     # ---- R7 stop cancels every handle
     r = ctx.rule("R7", "Coordinator.stop cancels every discovered handle; unstored timers are fenced by a flag stop clears",
                  4, "A+B")
@@ -290,6 +307,9 @@ def run(ctx):
 
 
 MUTANTS = [
+    {"id": "join-entry-ignores-stopping", "file": "_group.py",
+     "old": "        if self._stopping:\n            # a rejoin timer armed while stop() was waiting for the leave\n            # reply outlived it: we have left the group, request nothing more\n            log.debug(\"join_and_sync: stopping\")\n            return\n",
+     "new": "", "expect": "C16.R6", "note": "finding F25"},
     {"id": "no-generation-kwarg", "file": "_group.py", "old": "                    commit_generation_id=self.generation_id,\n", "new": "",
      "expect": "C16.R1"},
     {"id": "start-latest", "file": "_group.py", "old": "start_d = consumer.start(OFFSET_COMMITTED)", "new": "start_d = consumer.start(OFFSET_LATEST)",
